@@ -23,9 +23,13 @@ type c14Chunk struct {
 }
 
 type c14Conn struct {
-	Scope  string     `json:"scope"`
-	Chunks []c14Chunk `json:"chunks"`
-	EOF    bool       `json:"eof"` // the client closes at the end (else it just goes silent)
+	// Scope the connection comes from; "none" = an address no secret configuration covers
+	Scope string `json:"scope"`
+	// AcceptFault: before this connection the listener's Accept fails once with a temporary error
+	// that is not a timeout (what EMFILE looks like)
+	AcceptFault bool       `json:"accept_fault,omitempty"`
+	Chunks      []c14Chunk `json:"chunks"`
+	EOF         bool       `json:"eof"` // the client closes at the end (else it just goes silent)
 }
 
 type c14Case struct {
@@ -58,6 +62,13 @@ func oddWorld(t *rapid.T) cfggen.World {
 	// a user with a generated command/service policy (invalid and odd patterns included)
 	w.Cfg.Users = append(w.Cfg.Users, cfggen.User{Name: "ruler", Scopes: []string{cfggen.ScopeA, cfggen.ScopeB}, Commands: genRules(t, 6), Services: genServices(t, 3),
 		Groups: []cfggen.Group{{Name: "g", Commands: genRules(t, 3)}}})
+	// a secret configuration whose prefix list is valid JSON but holds nothing that parses as a CIDR
+	if rapid.IntRange(0, 2).Draw(t, "unparsable_prefix_scope") == 0 {
+		sc := cfggen.NewSecret("sC", "key-C", rapid.SampledFrom([]string{"10.3.0.1", "not-a-prefix", ""}).Draw(t, "bad_prefix"))
+		pos := rapid.IntRange(0, len(w.Cfg.Secrets)).Draw(t, "bad_scope_pos")
+		w.Cfg.Secrets = append(w.Cfg.Secrets[:pos], append([]cfggen.Secret{sc}, w.Cfg.Secrets[pos:]...)...)
+		w.Cfg.Users = append(w.Cfg.Users, cfggen.User{Name: "cuser", Scopes: []string{"sC"}})
+	}
 	// the control user, in both scopes
 	w.Cfg.Users = append(w.Cfg.Users, cfggen.User{Name: ctlUser, Scopes: []string{cfggen.ScopeA, cfggen.ScopeB}, Authenticator: cfggen.BcryptAuth(ctlPassword)})
 	return w
@@ -77,7 +88,10 @@ func mutateBytes(t *rapid.T, b []byte, label string) []byte {
 }
 
 func genC14Conn(t *rapid.T, w cfggen.World) c14Conn {
-	cc := c14Conn{Scope: pickServingScope(t, w), EOF: rapid.Bool().Draw(t, "eof")}
+	cc := c14Conn{Scope: pickServingScope(t, w), EOF: rapid.Bool().Draw(t, "eof"), AcceptFault: rapid.IntRange(0, 5).Draw(t, "accept_fault") == 0}
+	if rapid.IntRange(0, 5).Draw(t, "stranger") == 0 {
+		cc.Scope = "none"
+	}
 	key := scopeKey(cc.Scope)
 	var names []string
 	for n := range w.Cfg.ScopeUsers(cc.Scope) {
@@ -222,6 +236,9 @@ func runC14(t failer, c c14Case) (handled int) {
 	}()
 	control := func(after string, i int, scope string) {
 		d, err := env.dial(cfggen.AddrIn(scope, 200).IP(), 9000+i)
+		if err == errServeGone {
+			fail("server-stopped-serving", "%s: %v", after, err)
+		}
 		if err != nil {
 			t.Fatalf("%v", err)
 		}
@@ -239,7 +256,21 @@ func runC14(t failer, c c14Case) (handled int) {
 	}
 	control("before any hostile connection", 0, cfggen.ScopeA)
 	for i, cc := range c.Conns {
-		conn, err := env.srv.connect(&net.TCPAddr{IP: cfggen.AddrIn(cc.Scope, byte(10+i)).IP(), Port: 8000 + i})
+		ip := cfggen.AddrIn(cc.Scope, byte(10+i)).IP()
+		ctlScope := cc.Scope
+		if cc.Scope == "none" {
+			ip = net.IPv4(10, 77, 0, byte(10+i))
+			ctlScope = cfggen.ScopeA
+			ev.Class("conn:from-uncovered-address")
+		}
+		if cc.AcceptFault {
+			env.srv.ln.FailAccept(&net.OpError{Op: "accept", Net: "tcp", Err: tempErr{}})
+			ev.Class("fault:temporary-accept-error")
+		}
+		conn, err := env.srv.connect(&net.TCPAddr{IP: ip, Port: 8000 + i})
+		if err == errServeGone {
+			fail("server-stopped-serving", "connection %d: %v (after a temporary accept error=%v)", i, err, cc.AcceptFault)
+		}
 		if err != nil {
 			t.Fatalf("%v", err)
 		}
@@ -268,7 +299,7 @@ func runC14(t failer, c c14Case) (handled int) {
 			}
 		}
 		handled = len(env.rec.Calls())
-		control(fmt.Sprintf("after hostile connection %d", i), i+1, cc.Scope)
+		control(fmt.Sprintf("after hostile connection %d", i), i+1, ctlScope)
 	}
 	return handled
 }
@@ -361,3 +392,10 @@ func FuzzC14ServerStream(f *testing.F) {
 		runC14(t, c)
 	})
 }
+
+// tempErr is a temporary, non-timeout network error (what accept returns on EMFILE/ENFILE).
+type tempErr struct{}
+
+func (tempErr) Error() string   { return "too many open files" }
+func (tempErr) Timeout() bool   { return false }
+func (tempErr) Temporary() bool { return true }
